@@ -430,11 +430,8 @@ func (ex *Exec) pushEdge(fr *Frame, from, to *ssa.BasicBlock, st *State, incomin
 
 func (ex *Exec) loopHead(fr *Frame, li *loopInfo, st *State) {
 	name := ex.loopName(fr, li)
-	if fr != ex.top && !(isNewFunction(fr.fn) || os.Getenv("GOCV_INLINE_LOOPS") != "") {
-		// loops in inlined callees are only run for helpers that appeared after the contracts were written
-		// (cut at the head like any loop, with the invariant "true"); otherwise the callee must have a contract
-		panic(unsupported("loop in inlined function " + funcKey(fr.fn)))
-	}
+	// (a loop in an inlined callee or function literal has no clauses: it is cut at its head like any loop, with the
+	// invariant "true")
 	if li.spec == nil {
 		li.spec = &LoopSpec{}
 	}
@@ -1030,7 +1027,20 @@ func (ex *Exec) havocModSet(fr *Frame, st *State, ms *modSet, tag string) {
 			if _, isPoison := old.(poison); isPoison {
 				continue
 			}
-			// pointer/closure valued cell modified in loop
+			// pointer/closure valued cell modified in loop. A pointer to a struct that the function only ever reads
+			// through becomes a reference to an arbitrary allocated object (whatever it pointed to - a global, a
+			// local whose address was taken - the reads see arbitrary contents, which covers the real ones).
+			if pt, isPtr := a.Type().(*types.Pointer).Elem().Underlying().(*types.Pointer); isPtr {
+				if _, isStruct := pt.Elem().Underlying().(*types.Struct); isStruct && readOnlyPointerCell(a) {
+					r := ex.vc.fresh(a.Comment+"_"+tag, "Int")
+					ex.refFact(st, r)
+					ex.assume(st, sx("<", "0", r))
+					ex.assume(st, sx("select", ex.allocSet(st), r))
+					st.cells[a] = Term{S: r, T: a.Type().(*types.Pointer).Elem()}
+					ex.vc.note("pointer-valued local %s of %s is modified in a loop: arbitrary object afterwards (the function only reads through it)", a.Comment, funcKey(fr.fn))
+					continue
+				}
+			}
 			st.cells[a] = poison{"pointer-valued local " + a.Comment + " modified in loop"}
 			continue
 		}
@@ -1337,4 +1347,47 @@ func (ex *Exec) stableValue(fr *Frame, st *State, ms *modSet, b ssa.Value, depth
 		return Term{S: sx("select", ex.heapGet(st, comp, ft), bt.S), T: ft}, true
 	}
 	return nil, false
+}
+
+// readOnlyPointerCell: every value loaded from the cell is only dereferenced for reading (loads, field/index reads),
+// compared, passed to calls or stored as a value - never used as the target of a store.
+func readOnlyPointerCell(a *ssa.Alloc) bool {
+	if a.Referrers() == nil {
+		return false
+	}
+	var writesThrough func(v ssa.Value, depth int) bool
+	writesThrough = func(v ssa.Value, depth int) bool {
+		if depth > 6 || v.Referrers() == nil {
+			return depth > 6
+		}
+		for _, r := range *v.Referrers() {
+			switch x := r.(type) {
+			case *ssa.Store:
+				if x.Addr == v {
+					return true
+				}
+			case *ssa.FieldAddr:
+				if writesThrough(x, depth+1) {
+					return true
+				}
+			case *ssa.IndexAddr:
+				if writesThrough(x, depth+1) {
+					return true
+				}
+			case *ssa.MapUpdate:
+				if x.Map == v {
+					return true
+				}
+			}
+		}
+		return false
+	}
+	for _, r := range *a.Referrers() {
+		if ld, ok := r.(*ssa.UnOp); ok && ld.Op == token.MUL {
+			if writesThrough(ld, 0) {
+				return false
+			}
+		}
+	}
+	return true
 }
